@@ -63,7 +63,7 @@ def freeze(el):
     if text is not None and len(el) and not text.strip(" \t\r\n"):
         text = None
     return (el.tag, tuple(sorted(el.items())), tuple(sorted(pref.items())), text, tail,
-            tuple(freeze(c) for c in el))
+            tuple([freeze(c) for c in el]))      # a list comprehension is inlined: no C frame per level
 
 
 def short(s: str, n: int = 400) -> str:
@@ -400,8 +400,18 @@ def do_directed(model, kind: str, value: str, index: int, log: list, created: li
             o.description = big
         elif where == "name":
             o = model.la.root_function.functions.create(name=big)
-        else:   # element text: the body of an opaque expression
-            o = model.la.root_function.constraints.create(name="long body")
+        else:   # element text: the body of an opaque expression (they cannot be created through the API: the first existing one)
+            o = None
+            for c in model.search("Constraint"):
+                try:
+                    c.specification
+                except AttributeError:
+                    continue
+                if is_primary(model, c):
+                    o = c
+                    break
+            if o is None:
+                return
             o.specification["Python"] = big
         log.append(("long", where, n, o.uuid, hashlib.sha256(big.encode()).hexdigest()))
     elif kind == "involve":
@@ -690,7 +700,7 @@ def run(chk: lib.Check):
         xplan.append((wt, [("deep", f"{places_deep[i % 4]}:{rng.randrange(258, 300) if i == 0 else rng.randrange(300, 900)}")]))
     att, txt = [p_ for p_ in places_long if p_ != "text"], "text"
     for i, pl in enumerate(([att[0], txt] if quick else places_long * 2)):
-        xplan.append((wt, [("long", f"{pl}:{10_000_000 + rng.randrange(1, 900_000)}:{alph[rng.randrange(len(alph))]}")]))
+        xplan.append((big[0] if pl == "text" else wt, [("long", f"{pl}:{10_000_000 + rng.randrange(1, 900_000)}:{alph[rng.randrange(len(alph))]}")]))
     if not quick:
         xplan.append((wt, [("long", f"pv:{rng.randrange(30_000_000, 50_000_000)}:x")]))
     dplan += xplan
